@@ -397,6 +397,7 @@ func matrixWorker(w *pool.W, arg json.RawMessage) {
 	keyCount := map[string]int64{}
 	names := len(sh.Routes) + 1
 	sampled := false
+	passing := 0
 	for _, steps := range stepsFor(sh.Mode, names) {
 		k := kase{Shape: sh.Shape, Routes: sh.Routes, Steps: steps, Rot: sh.Rot}
 		if !k.build().ok {
@@ -493,7 +494,10 @@ func matrixWorker(w *pool.W, arg json.RawMessage) {
 			}
 			keyCount[f.Key]++
 		}
-		if len(fs) == 0 && !sampled && ctl == "" && o.Effective[0] && o.Agree[0] == 1 && sh.Shape == "list" {
+		if len(fs) == 0 && !sampled && ctl == "" && o.Effective[0] && o.Agree[0] == 1 && len(steps) == 1 {
+			passing++
+		}
+		if len(fs) == 0 && !sampled && ctl == "" && o.Effective[0] && o.Agree[0] == 1 && len(steps) == 1 && len(sh.Routes) == 1 && passing == 1+(len(sh.Routes[0])+len(sh.Shape))%7 {
 			sampled = true
 			w.Emit(rec{Kind: "sample", Sample: map[string]any{"case": k.String(), "statement": o.B.stmts[0], "other_name_before": jsonPart(o.Snaps[0][1-steps[0].Target%2]), "other_name_after": jsonPart(o.Snaps[1][1-steps[0].Target%2]), "mutated_after": jsonPart(o.Snaps[1][steps[0].Target]), "verdict": "independent"}})
 		}
@@ -636,9 +640,11 @@ func main() {
 	if rot < 0 {
 		rot = -rot
 	}
-	var shards []pool.Shard
+	// waves: each wave is a complete sub-space; a wave is only started while the budget lasts
+	waves := map[string][]pool.Shard{}
+	order := []string{"1x1", "2x1", "1x2", "2x2r"}
 	add := func(shape string, rs []string, mode string) {
-		shards = append(shards, pool.Shard{Kind: "matrix", Arg: shardArg{Shape: shape, Routes: rs, Mode: mode, Rot: rot}})
+		waves[mode] = append(waves[mode], pool.Shard{Kind: "matrix", Arg: shardArg{Shape: shape, Routes: rs, Mode: mode, Rot: rot}})
 	}
 	chains := 0
 	for _, s := range shapes() {
@@ -651,22 +657,21 @@ func main() {
 		for _, r := range controls() {
 			add(s.name, []string{r.name}, "1x1")
 		}
-		{
-			for _, r1 := range routes() {
-				for _, r2 := range routes() {
-					if !r2.general || (r1.name == "param" && r2.name == "param") {
-						continue
-					}
-					add(s.name, []string{r1.name, r2.name}, "2x1")
-					if !c.Quick() {
-						add(s.name, []string{r1.name, r2.name}, "2x2r")
-					}
-					chains++
+		for _, r1 := range routes() {
+			for _, r2 := range routes() {
+				if !r2.general || (r1.name == "param" && r2.name == "param") {
+					continue
 				}
+				add(s.name, []string{r1.name, r2.name}, "2x1")
+				if !c.Quick() {
+					add(s.name, []string{r1.name, r2.name}, "2x2r")
+				}
+				chains++
 			}
 		}
 	}
-	shards = append(shards, pool.Shard{Kind: "matrix", Arg: shardArg{Mode: "objects"}})
+	chains /= len(shapes())
+	waves["1x1"] = append(waves["1x1"], pool.Shard{Kind: "matrix", Arg: shardArg{Mode: "objects"}})
 
 	var total, na, runs, copyDiff int64
 	uneval := map[string]int64{}
@@ -675,62 +680,20 @@ func main() {
 	ctrl := map[string]*[2]int64{}
 	diverge := map[string]string{}
 	leakBy := map[string]int64{}
-	pool.Run(shards, pool.Options{}, func(si int, rb json.RawMessage) {
-		var r rec
-		json.Unmarshal(rb, &r)
-		switch r.Kind {
-		case "count":
-			total += r.N
-			na += r.NA
-			runs += r.Runs
-			copyDiff += r.CopyDiff
-			for k, n := range r.Uneval {
-				uneval[k] += n
-			}
-			for k, v := range r.Matrix {
-				if matrix[k] == nil {
-					matrix[k] = &cell{}
-				}
-				matrix[k].Cases += v.Cases
-				matrix[k].Effective += v.Effective
-				matrix[k].Leaked += v.Leaked
-			}
-			for k, v := range r.MutStat {
-				if mutStat[k] == nil {
-					mutStat[k] = &[4]int64{}
-				}
-				for i := range v {
-					mutStat[k][i] += v[i]
-				}
-			}
-			for k, v := range r.Diverge {
-				if _, ok := diverge[k]; !ok {
-					diverge[k] = v
-				}
-			}
-			for k, v := range r.LeakBy {
-				leakBy[k] += v
-			}
-			for k, v := range r.Controls {
-				if ctrl[k] == nil {
-					ctrl[k] = &[2]int64{}
-				}
-				ctrl[k][0] += v[0]
-				ctrl[k][1] += v[1]
-			}
-			for k, n := range r.Counts {
-				for i := int64(1); i < n; i++ {
-					c.Fail(k, "", 1<<30, nil, "")
-				}
-			}
-		case "fail":
-			c.Fail(r.Key, r.Clause, r.Size, r.Case, r.Detail)
-		case "sample":
-			c.Sample(r.Sample)
+	var done []string
+	for _, wave := range order {
+		shards := waves[wave]
+		if len(shards) == 0 {
+			continue
 		}
-	}, func(d pool.Death) {
-		c.Fail("worker-death:"+runner.FatalFrame(d.Stderr), "crash", 0, map[string]any{"item": d.Item, "reason": d.Reason}, d.Stderr)
-	})
+		if c.Expired() {
+			c.NotExhaustive("budget expired; completed waves: " + strings.Join(done, ", ") + " (1x1 = one route x one mutation, 2x1 = route chains, 1x2 / 2x2r = mutation sequences)")
+			break
+		}
+		runWave(c, shards, &total, &na, &runs, &copyDiff, uneval, matrix, mutStat, ctrl, diverge, leakBy)
+		done = append(done, wave)
+	}
+	c.Set("waves_completed", done)
 
 	// evidence: the route x class matrix, per-mutation guard statistics, controls
 	mrows := map[string]string{}
@@ -797,6 +760,66 @@ func main() {
 		c.HarnessError("more than 20%% of the cases could not be evaluated (%d of %d)", unevalTotal, total)
 	}
 	c.Finish(total-unevalTotal, runs, total-unevalTotal, fmt.Sprintf("complete matrix shape(%d) x route(%d) x mutation(%d) x mutated side, + %d reference/handle control routes, + object table, + %d two-route chains (thorough: + two-mutation sequences); oracle: snapshot of every non-mutated name identical before/after inside the same run", len(shapes()), len(routes()), len(mutations()), len(controls()), chains))
+}
+
+func runWave(c *ev.Check, shards []pool.Shard, total, na, runs, copyDiff *int64, uneval map[string]int64, matrix map[string]*cell, mutStat map[string]*[4]int64, ctrl map[string]*[2]int64, diverge map[string]string, leakBy map[string]int64) {
+	pool.Run(shards, pool.Options{}, func(si int, rb json.RawMessage) {
+		var r rec
+		json.Unmarshal(rb, &r)
+		switch r.Kind {
+		case "count":
+			*total += r.N
+			*na += r.NA
+			*runs += r.Runs
+			*copyDiff += r.CopyDiff
+			for k, n := range r.Uneval {
+				uneval[k] += n
+			}
+			for k, v := range r.Matrix {
+				if matrix[k] == nil {
+					matrix[k] = &cell{}
+				}
+				matrix[k].Cases += v.Cases
+				matrix[k].Effective += v.Effective
+				matrix[k].Leaked += v.Leaked
+			}
+			for k, v := range r.MutStat {
+				if mutStat[k] == nil {
+					mutStat[k] = &[4]int64{}
+				}
+				for i := range v {
+					mutStat[k][i] += v[i]
+				}
+			}
+			for k, v := range r.Diverge {
+				if _, ok := diverge[k]; !ok {
+					diverge[k] = v
+				}
+			}
+			for k, v := range r.LeakBy {
+				leakBy[k] += v
+			}
+			for k, v := range r.Controls {
+				if ctrl[k] == nil {
+					ctrl[k] = &[2]int64{}
+				}
+				ctrl[k][0] += v[0]
+				ctrl[k][1] += v[1]
+			}
+			for k, n := range r.Counts {
+				for i := int64(1); i < n; i++ {
+					c.Fail(k, "", 1<<30, nil, "")
+				}
+			}
+		case "fail":
+			c.Fail(r.Key, r.Clause, r.Size, r.Case, r.Detail)
+		case "sample":
+			c.Sample(r.Sample)
+		}
+	}, func(d pool.Death) {
+		c.Fail("worker-death:"+runner.FatalFrame(d.Stderr), "crash", 0, map[string]any{"item": d.Item, "reason": d.Reason}, d.Stderr)
+	})
+
 }
 
 func replay(c *ev.Check) {
